@@ -193,12 +193,13 @@ PROPS = {
         witness=['c17', '--max', '2500'],
         witness_thorough=['c17'],
         level='proof',
-        technique='Verus contracts on the real type-agreement deciders (unify, check_type, check_or_constrain_unsigned/_signed) over the real AST type definitions',
+        technique='Verus contracts on the real type-agreement and type-shape deciders (unify, check_type, check_or_constrain_unsigned/_signed, expect_num_type / _signed_num_type / _bool_or_num_type / _tuple_type) over the real AST type definitions; bounded catalogue of rule violations on the real checker',
         claim='Deductive proof (Verus/Z3), over all types and expressions (the real AST datatypes, extracted each run), of the single place where '
               'type agreement is decided: unify accepts two operands only if their types are equal or one is an unspecified integer-literal type '
               'that may become the other, and then both carry the agreed type, every other pair is an error with at least one message; '
               'check_or_constrain_unsigned/_signed accept exactly the expected type or a fitting unspecified literal (value bounds of every integer '
-              'type checked); check_type accepts only an expression whose type equals the expected one. That every construct of type_check consults '
+              'type checked); check_type accepts only an expression whose type equals the expected one; the expect_* shape deciders accept exactly '
+              'number / signed number / Boolean-or-number / tuple types. That every construct of type_check consults '
               'these deciders, scoping, mutability, recursion / unused-function checks and pattern refutability are NOT under contract: as the labelled '
               'bounded stand-in, a catalogue of 108 static-rule violations (every rule named in the statement, several shapes each: operand / argument / '
               'return / branch / annotation / assignment type mismatches for every pair of 17 types, non-Boolean conditions, unknown and out-of-scope '
